@@ -4,9 +4,10 @@
 From Gnmi Require Import Base.Prelude TargetCfg.TargetCfgModel TargetCfg.TargetCfgProofs.
 
 Theorem C17_rejected_unchanged :
-  forall (R O X : Type) (R_eqb : R -> R -> bool) (O_eqb : O -> O -> bool)
-         (s : state R O X) (arg : option (config R O X)),
-    snd (fst (load R_eqb O_eqb s arg)) <> None ->
-    fst (fst (load R_eqb O_eqb s arg)) = s /\ snd (load R_eqb O_eqb s arg) = [].
+  forall (R O X : Type) (R_eqb : R -> R -> bool) (O_eqb : O -> O -> bool) (R_empty : R) (O_empty : O)
+         (p : bool) (s : state R O X) (arg : option (config R O X)),
+    snd (fst (load_gen R_eqb O_eqb R_empty O_empty p s arg)) <> None ->
+    fst (fst (load_gen R_eqb O_eqb R_empty O_empty p s arg)) = s
+    /\ snd (load_gen R_eqb O_eqb R_empty O_empty p s arg) = [].
 Proof. exact @load_rejected_unchanged. Qed.
 Print Assumptions C17_rejected_unchanged.
